@@ -4,6 +4,7 @@ package method_evaluator
 
 import (
 	"ti/base"
+	"ti/context"
 	"ti/parser"
 )
 
@@ -24,4 +25,15 @@ func VerifCheckArgType(definedArgT, argT *base.T) bool {
 func VerifCalculateExecutionType(p *parser.Parser, methodT, recvT *base.T, args []*base.T) *base.T {
 	m := &MethodEvaluator{method: methodT.GetMethodName(), evaluatedObjectT: recvT, parser: p}
 	return calculateExecutionType(m, methodT, args)
+}
+
+// VerifPropagate applies propagationForCalledTo for one call site: method `method` of class `class` (frame ""),
+// parameter `param`, argument type argT, in the given round. It returns what the function returned.
+func VerifPropagate(round, class, method, param string, argT *base.T) bool {
+	m := &MethodEvaluator{method: method, ctx: context.NewContext("", "", round)}
+	methodT := base.MakeMethod("", method, *base.MakeNil(), []string{param})
+	methodT.DefinedClass = class
+	definedArgT := getDefinedArgT(&MethodEvaluator{method: method, evaluatedObjectT: base.MakeObject(class)}, methodT, class, param)
+
+	return propagationForCalledTo(m, class, param, methodT, definedArgT, argT)
 }
